@@ -1,4 +1,5 @@
 import JoblibProofs.Lemmas.ParallelProto
+import JoblibProofs.Lemmas.ParallelSeq
 /-!
 # C04 — Task failures surface as that exception; Parallel stays reusable and clean
 
@@ -312,5 +313,53 @@ example : ((callList (⟨3, false, [2], 0, 3, 0, -1, false, false⟩ : Cfg) 200 
         (callList (⟨3, false, [2], 0, 3, 0, -1, false, false⟩ : Cfg) 200 0 ⟨12, [1], -1, []⟩
           ({ sched := [[], [1], [], [0]], failIds := [1] } : St)).1)).2) =
     ([0, 2], [2], .ret [12, 13, 14, 15, 16]) := by decide
+
+
+/-! ### the sequential path (`n_jobs == 1`) -/
+
+section Sequential
+open JoblibModel.ParallelSeq
+
+/-- SEQUENTIAL ERROR SURFACES. If a sequential list-mode call on an idle object raises `e`, then `e` is the exception
+of the FIRST failing task of this call in submission order — every earlier task of the call was executed and did
+not fail, the failing one was executed, and no later task was (`nDispTasks = nCompleted + 1`) — or it is the
+exception of the failing step of the input iterable; on an object that is already running the call raises
+`RuntimeError` and changes nothing. -/
+theorem sequential_error_surfaces (c : Cfg) {fuel base : Nat} {spec : CallSpec} {s₀ : St} :
+    (s₀.running = true → seqCallList c fuel base spec s₀ = (s₀, .raised .runtime)) ∧
+    (Idle s₀ → spec.n + 2 ≤ fuel → ∀ s' e, seqCallList c fuel base spec s₀ = (s', .raised e) →
+      s'.exception = true ∧ (∀ id, base ≤ id → id < base + s'.nCompleted → id ∉ s₀.failIds) ∧
+      ((e = .task (base + s'.nCompleted) ∧ base + s'.nCompleted ∈ s₀.failIds ∧ s'.nCompleted < spec.n ∧
+          s'.nDispTasks = s'.nCompleted + 1) ∨
+       (∃ pos, e = .iter pos ∧ 0 ≤ spec.iterfail ∧ (pos : Int) = (base : Int) + spec.iterfail))) := by
+  constructor
+  · intro hr
+    unfold seqCallList
+    rw [seqStart_running c base spec s₀ hr]
+  · intro hi hf s' e he
+    have := seqCallList_spec c (base := base) (spec := spec) hi hf
+    rw [he] at this
+    exact ⟨this.2.1, this.2.2.2.2.2.1, this.2.2.2.2.2.2⟩
+
+/-- SEQUENTIAL CLEAN AFTER CALL. However a sequential call ends, `_running = False`, the job queues are (still)
+empty, `hung`, the failing-id table and `_calling` are untouched, and the object is idle. -/
+theorem sequential_clean_after_call (c : Cfg) {fuel base : Nat} {spec : CallSpec} {s₀ : St} (hi : Idle s₀)
+    (hfuel : spec.n + 2 ≤ fuel) :
+    (seqCallList c fuel base spec s₀).1.running = false ∧ (seqCallList c fuel base spec s₀).1.jobs = [] ∧
+    (seqCallList c fuel base spec s₀).1.jobsSet = [] ∧
+    (seqCallList c fuel base spec s₀).1.calling = s₀.calling ∧
+    (seqCallList c fuel base spec s₀).1.hung = s₀.hung ∧ Idle (seqCallList c fuel base spec s₀).1 := by
+  have h := seqCallList_spec c (base := base) (spec := spec) hi hfuel
+  generalize seqCallList c fuel base spec s₀ = r at h
+  obtain ⟨s', o⟩ := r
+  cases o with
+  | ret v => exact ⟨h.2.1.running, h.2.1.jobs, h.2.1.jobsSet, h.2.2.2.2.2.2.1, h.2.2.2.2.1, h.2.1⟩
+  | raised e => exact ⟨h.1.running, h.1.jobs, h.1.jobsSet, h.2.2.2.2.1, h.2.2.1, h.1⟩
+  | hung => exact h.elim
+
+example : (seqCallList (⟨1, false, [2], 0, 2, 0, -1, false, true⟩ : Cfg) 20 0 ⟨6, [2, 4], -1, []⟩
+    ({ failIds := [2, 4] } : St)).2 = .raised (.task 2) := by decide
+
+end Sequential
 
 end C04
